@@ -27,6 +27,7 @@ import (
 // decision must be dropped before the next first-bin is evaluated.
 type bisyncRdbReplayState struct {
 	skippedKey string
+	skipping   bool // "" is a legal key, the key alone cannot tell that nothing is skipped
 }
 
 // bisyncRdbGlobalTarget describes one cluster primary that should receive a
@@ -52,22 +53,18 @@ func newBisyncRdbReplayState() *bisyncRdbReplayState {
 // beginKey starts a new logical key and clears the previous key's skip state.
 func (rs *bisyncRdbReplayState) beginKey() {
 	rs.skippedKey = ""
+	rs.skipping = false
 }
 
 // skipKey records that all following bins for the current split key should be ignored.
 func (rs *bisyncRdbReplayState) skipKey(key string) {
-	if key == "" {
-		return
-	}
 	rs.skippedKey = key
+	rs.skipping = true
 }
 
 // shouldSkip reports whether a prior bin already marked the key as ignored.
 func (rs *bisyncRdbReplayState) shouldSkip(key string) bool {
-	if key == "" {
-		return false
-	}
-	return rs.skippedKey == key
+	return rs.skipping && rs.skippedKey == key
 }
 
 // bisyncRdbTargetKey normalizes an RDB key so it matches the key shape used by
@@ -150,6 +147,14 @@ func (ro *RedisOutput) bisyncRdbUseRestore(e *rdb.BinEntry) bool {
 	return true
 }
 
+// bisyncRdbKeylessEntry reports whether the entry is server-wide data (function,
+// aux field) and not a key of the keyspace. The type decides, not the length of
+// the key: the empty string is a legal key.
+func bisyncRdbKeylessEntry(e *rdb.BinEntry) bool {
+	t := e.ObjectParser.Type()
+	return t == rdb.RdbObjectFunction || t == rdb.RdbObjectAux
+}
+
 func bisyncRdbRequiresRestore(e *rdb.BinEntry) bool {
 	return e != nil && e.ObjectParser != nil && e.ObjectParser.Type() == rdb.RdbObjectModule
 }
@@ -230,7 +235,7 @@ func captureBisyncRdbExpandedCommands(e *rdb.BinEntry, sourceKey []byte, targetK
 		return nil
 	})
 
-	if e.ExpireAt != 0 && len(targetKey) > 0 {
+	if e.ExpireAt != 0 && !bisyncRdbKeylessEntry(e) {
 		// Expanded native commands do not carry TTL state, so append PEXPIRE to
 		// preserve the original expiration semantics.
 		cmds = append(cmds, bisyncAofCommand{
@@ -503,8 +508,7 @@ func (ro *RedisOutput) buildBisyncRdbReplayUnit(conn client.Redis, fullSyncOffse
 	}
 
 	targetKey := ro.bisyncRdbTargetKey(e.Key)
-	globalStandaloneEntry := !ro.cfg.Redis.IsCluster() && (e.ObjectParser.Type() == rdb.RdbObjectFunction || e.ObjectParser.Type() == rdb.RdbObjectAux)
-	hasBusinessKey := len(targetKey) > 0 && !globalStandaloneEntry
+	hasBusinessKey := !bisyncRdbKeylessEntry(e)
 	targetKeyStr := util.BytesToString(targetKey)
 	if hasBusinessKey && e.FirstBin() {
 		state.beginKey()
@@ -571,7 +575,7 @@ func (ro *RedisOutput) buildBisyncRdbReplayUnit(conn client.Redis, fullSyncOffse
 	if ro.cfg.Redis.IsCluster() {
 		// Cluster replay still needs a routing slot even though the unit may have
 		// been derived from transformed key bytes.
-		if len(targetKey) == 0 && !globalStandaloneEntry {
+		if !hasBusinessKey {
 			return nil, false, fmt.Errorf("cluster bisync rdb entry has no key")
 		}
 		slot = redispkg.KeyToSlot(util.BytesToString(targetKey))
